@@ -130,8 +130,9 @@ CHECKS = {
             'oracles': [PP.oracle_c16], 'level': 'exploration'},
     'C17': {'profiles': [('reconnect', 6000, 200000), ('reconnect-connfail', 2000, 60000), ('reconnect-sweep', 16, 600)],
             'oracles': [XR.oracle_c17], 'level': 'exploration'},
-    'C12': {'profiles': [('hostile', 12000, 400000), ('buggify', 3000, 100000)],
-            'oracles': {'hostile': [PH.oracle_c12_hostile], 'buggify': [PH.oracle_c12_buggify]}, 'level': 'exploration'},
+    'C12': {'profiles': [('hostile', 12000, 400000), ('buggify', 3000, 100000), ('routing', 2000, 60000)],
+            'oracles': {'hostile': [PH.oracle_c12_hostile], 'buggify': [PH.oracle_c12_buggify], 'routing': [XRT.oracle_c12_routing]},
+            'level': 'exploration'},
     'C19': {'profiles': [('routing', 10000, 300000)], 'oracles': [XRT.oracle_c19], 'level': 'exploration'},
     'C20': {'profiles': [('rx', 8000, 250000)], 'oracles': [XRX.oracle_c20], 'level': 'exploration'},
     'C10': {'profiles': [('core-ends', 3500, 140000), ('core', 1500, 60000), ('core-frag', 1000, 40000),
